@@ -69,6 +69,32 @@ def run_case(case):
             checks += 1
             if abs(v - true_q) > 3.0 * cell + 1e-6:
                 bad.append(f"quantile({q}) = {v:.6f}, the mixture's true quantile is {true_q:.6f} (grid cell {cell:.6f})")
+        # the quantile is a function of THIS distribution only: sibling mixtures with the same components and other weights, queried in the same process at the same
+        # probabilities, get their own quantiles, and asking the first one again gives the first answer again (no dependence on what was asked before)
+        k_ = len(case["w"])
+        for w2 in ([1.0 / k_] * k_, list(reversed(case["w"])), [0.97] + [0.03 / (k_ - 1)] * (k_ - 1)):
+            if max(abs(a_ - b_) for a_, b_ in zip(w2, case["w"])) < 1e-9:
+                continue
+            d2 = distrax.MixtureSameFamily(mixture_distribution=distrax.Categorical(probs=jnp.array(w2)), components_distribution=comp)
+            D2_ = base.StaticDist.create(d2)
+            cdf2 = lambda x: sum(w * 0.5 * (1.0 + math.erf((x - l) / (s_ * math.sqrt(2.0)))) for w, l, s_ in zip(w2, case["loc"], case["scale"]))
+            for q in (0.5, 0.99):
+                v2 = float(np.asarray(D2_.quantile(q)).reshape(-1)[0])
+                a_, b_ = lo_g - 1.0, hi_g + 1.0
+                for _ in range(80):
+                    m_ = 0.5 * (a_ + b_)
+                    if cdf2(m_) < q:
+                        a_ = m_
+                    else:
+                        b_ = m_
+                checks += 1
+                # (on a plateau of the CDF - well separated modes - every point of the plateau is a q-quantile: wrong only if neither the value nor its CDF fits)
+                if abs(v2 - 0.5 * (a_ + b_)) > 3.0 * cell + 1e-6 and abs(cdf2(v2) - q) > tol:
+                    bad.append(f"same components, weights {w2} (asked after weights {case['w']}): quantile({q}) = {v2:.6f}, true quantile {0.5 * (a_ + b_):.6f}")
+        again = [float(np.asarray(D.quantile(q)).reshape(-1)[0]) for q in qs]
+        checks += 1
+        if any(abs(a_ - b_) > 1e-9 for a_, b_ in zip(again, vals)):
+            bad.append(f"asking the same distribution again gives {again}, first answer {vals}")
     if case["kind"] == "deterministic" and any(abs(v - case["loc"][0]) > 1e-6 for v in vals):
         bad.append(f"deterministic quantiles {vals} != {case['loc'][0]}")
     # sampling: non-negative, replayable, new rng state
